@@ -36,6 +36,23 @@ GROUP: Dict[str, str] = {
     "DataTypeValidator_types_loosely_compatible": "Proofs/SrcTieTypesP.v",
     "FeatureGroup_get_column_base_feature": "Proofs/SrcTieBaseP.v",
     "FeatureChainParser_is_chained_feature": "Proofs/SrcTieChainP.v",
+    # round 2: the planner
+    "JoinStep_get_uuids": "Proofs/SrcTiePlanP.v",
+    "JoinStepCollection_similar_dependent_joins_uuids": "Proofs/SrcTiePlanP.v",
+    "JoinStepCollection_add": "Proofs/SrcTiePlanP.v",
+    "ResolveComputeFrameworks_order_queue_by_trekker_order": "Proofs/SrcTieQueueP.v",
+    "LinkTrekker_order_links_by_frameworks": "Proofs/SrcTieTrekP.v",
+    "LinkTrekker_get_ordered_data": "Proofs/SrcTieTrekP.v",
+    "LinkTrekker_order_ordered_ids_by_relation": "Proofs/SrcTieReorderP.v",
+    "ExecutionPlan_validate_required_uuids_are_produced": "Proofs/SrcTieValidP.v",
+    "ComputeFramework_identify_naming_convention": "Proofs/SrcTieNameP.v",
+    # round 2: options
+    **{t: "Proofs/SrcTieOptP.v" for t in ("Options_get", "Options_items", "OptionsValidator_validate_can_add_to_group",
+                                          "Options_add_to_group", "Options_add", "Features_merge_options",
+                                          "OptionsValidator_validate_can_add_to_context", "Options_add_to_context", "Options_set")},
+    **{t: "Proofs/SrcTieUpdP.v" for t in ("OptionsValidator_validate_no_group_context_conflicts",
+                                          "OptionsValidator_validate_no_context_group_conflicts",
+                                          "Options_update_with_protected_keys")},
 }
 # lemma -> target, to name the first lemma coqc stopped at
 LEMMA_TARGET = {
@@ -58,6 +75,38 @@ LEMMA_TARGET = {
     "split1_head": "FeatureGroup_get_column_base_feature", "column_base_feature_src": "FeatureGroup_get_column_base_feature",
     "split1_split_on": "FeatureGroup_get_column_base_feature", "column_base_src": "FeatureGroup_get_column_base_feature",
     "startswith_dunder": "FeatureChainParser_is_chained_feature", "is_chained_feature_src": "FeatureChainParser_is_chained_feature",
+    "joinstep_get_uuids_src": "JoinStep_get_uuids",
+    "similar_loop_src": "JoinStepCollection_similar_dependent_joins_uuids",
+    "similar_dependent_joins_uuids_src": "JoinStepCollection_similar_dependent_joins_uuids",
+    "joinstep_collection_add_src": "JoinStepCollection_add", "joinstep_collection_add_fresh": "JoinStepCollection_add",
+    **{l: "ResolveComputeFrameworks_order_queue_by_trekker_order" for l in (
+        "py_dd_add_iadd", "queue_loop2_src", "queue_loop5_src", "queue_loop4_src", "queue_loop3_src", "oq_step_unfold",
+        "queue_loop1_src", "order_queue_by_trekker_order_src")},
+    **{l: "LinkTrekker_order_links_by_frameworks" for l in (
+        "order_add_src", "olbf_loop2_src", "olbf_loop1_src", "order_links_by_frameworks_src", "order_links_by_frameworks_model")},
+    "get_ordered_data_src": "LinkTrekker_get_ordered_data", "get_ordered_data_model": "LinkTrekker_get_ordered_data",
+    **{l: "LinkTrekker_order_ordered_ids_by_relation" for l in (
+        "zpm_mem", "zpm_len", "zpm_getitem", "zpm_set", "reorder_loop2_src", "reorder_loop2_latest", "reorder_loop3_src",
+        "reorder_loop1_src", "reorder_loop4_src", "zpm_keys", "order_ordered_ids_by_relation_src")},
+    **{l: "ExecutionPlan_validate_required_uuids_are_produced" for l in (
+        "produced_loop_src", "missing_empty", "missing_loop_src", "validate_required_uuids_are_produced_src",
+        "validate_required_uuids_are_produced_model")},
+    **{l: "ComputeFramework_identify_naming_convention" for l in (
+        "py_startswith_starts_with", "owns_src", "py_sorted_str_sort_str", "in_py_set_of_list", "name_loop2_absorb", "name_loop2_src",
+        "name_loop1_src", "name_loop4_src", "name_loop5_src", "name_loop3_src", "selected_src", "identify_naming_convention_src")},
+    "options_get_src": "Options_get", "options_items_src": "Options_items",
+    "validate_can_add_to_group_src": "OptionsValidator_validate_can_add_to_group",
+    "options_add_to_group_src": "Options_add_to_group", "options_add_src": "Options_add",
+    "validate_can_add_to_context_src": "OptionsValidator_validate_can_add_to_context",
+    "options_add_to_context_src": "Options_add_to_context", "options_set_src": "Options_set",
+    **{l: "Features_merge_options" for l in ("kmem_union1", "merge_loop2_src", "merge_loop1_src", "merge_conflict_ext",
+                                             "merge_options_src", "merge_options_model")},
+    "inter_nonempty": "OptionsValidator_validate_no_group_context_conflicts",
+    "validate_no_group_context_conflicts_src": "OptionsValidator_validate_no_group_context_conflicts",
+    "validate_no_context_group_conflicts_src": "OptionsValidator_validate_no_context_group_conflicts",
+    **{l: "Options_update_with_protected_keys" for l in (
+        "kmem_union_single", "update_loop1_src", "dict_del_filter", "update_loop2_src", "py_dict_update_dupdate",
+        "update_loop3_src", "update_with_protected_keys_src", "merge_options_full")},
 }
 
 TRUSTED = [
@@ -113,14 +162,16 @@ def check(rep: vlib.Reporter, prop: Optional[str] = None) -> bool:
     ok = True
     if not pr.ok:
         broken = _first_broken_lemma(pr.log)
-        src_broken = "Gen/Src.v" in pr.failed_files or "Model/PySem.v" in pr.failed_files
+        gen_broken = {g for g in py2coq.gen_files() if f"Gen/{g}.v" in pr.failed_files}
+        sem_broken = "Model/PySem.v" in pr.failed_files or "Model/PyObj.v" in pr.failed_files
         other = [f for f in pr.failed_files if not f.startswith(("Proofs/SrcTie", "Props/SrcTie", "Gen/Src"))]
         affected = []
         for t in mine:
             if status.get(t) is not None:
                 affected.append((t, "translation-failed-closed", status[t]))
-            elif src_broken:
-                affected.append((t, "generated-file-does-not-compile", "coq/Gen/Src.v is not accepted by coqc"))
+            elif sem_broken or py2coq.TARGET_BY_NAME[t].gen in gen_broken:
+                affected.append((t, "generated-file-does-not-compile",
+                                 f"coq/Gen/{py2coq.TARGET_BY_NAME[t].gen}.v is not accepted by coqc"))
             elif GROUP[t] in pr.failed_files:
                 first = broken.get(GROUP[t])
                 why = f"{GROUP[t]} no longer checks" + (f" (coqc stopped in lemma {first}, about {LEMMA_TARGET.get(first, '?')})"
@@ -318,6 +369,400 @@ def _space(target: str) -> Dict[str, Any]:
                 "term": lambda i, o: f"({cq_str(i['feature_name'])}, {_ob(o)})",
                 "type": "string * option bool", "req": ["MV.Model.ChainParser"],
                 "defs": OB + "Definition chk (c : string * option bool) := ob (snd c) (has_dunder (list_ascii_of_string (fst c)))."}
+    if target == "ComputeFramework_identify_naming_convention":
+        from mloda.core.abstract_plugins.compute_framework import ComputeFramework
+        from mloda.core.abstract_plugins.components.feature_name import FeatureName
+        names, colpool = ["a", "b", "ab"], ["a", "a~1", "a~2", "b", "ab", "b~z", "c"]
+        fsets = [[n for j, n in enumerate(names) if m >> j & 1] for m in range(8)]
+        csets = [list(c) for k in range(4) for c in itertools.combinations(colpool, k)]
+
+        def real_inc(i: dict) -> Any:
+            sel = {FeatureName(n) for n in i["names"]}
+            i["iter"] = [f.name for f in sel]          # the order in which THIS set object is iterated (the model's parameter)
+            r = ComputeFramework.identify_naming_convention(None, sel, set(i["cols"]), i["ordering"])  # type: ignore[arg-type]
+            return ["S", sorted(r)] if isinstance(r, set) else ["L", list(r)]
+        sl = lambda l: cq_list(cq_str(x) for x in l)  # noqa: E731
+        oterm = {None: "ONone", "alphabetical": "OAlpha", "request_order": "ORequest", "bogus": "OInvalid"}
+        ty = "(list string * list string * ordering) * option (bool * list string)"
+        return {"inputs": [{"names": f, "cols": c, "ordering": o} for f in fsets for c in csets for o in (None, "alphabetical", "request_order", "bogus")],
+                "real": real_inc,
+                "term": lambda i, o: (f"(({sl(i.get('iter', i['names']))}, {sl(i['cols'])}, {oterm[i['ordering']]}), "
+                                      + (f"Some ({cq_bool(o[0] == 'S')}, {sl(o[1])})" if isinstance(o, list) else "None") + ")"),
+                "type": ty, "req": ["MV.Model.Naming"],
+                # a set is compared as a set (the observation is sorted), a list exactly; an exception with RErr
+                "defs": "Definition seteq (a b : list string) := forallb (fun x => mem_str x b) a && forallb (fun x => mem_str x a) b.\n"
+                        f"Definition chk (c : {ty}) := match c with ((it, cols, o), obs) => match identify it cols o, obs with "
+                        "| RErr, None => true | RSet l, Some (true, l') => seteq l l' && Nat.eqb (List.length l) (List.length l') "
+                        "| RList l, Some (false, l') => if list_eq_dec string_dec l l' then true else false | _, _ => false end end."}
+    if py2coq.TARGET_BY_NAME[target].gen == "SrcPlan":
+        return _space_plan(target)
+    if py2coq.TARGET_BY_NAME[target].gen == "SrcOpt":
+        return _space_opt(target)
+    raise KeyError(target)
+
+
+# ---------------------------------------------------------------------------------------------------------------------
+# the option targets (round 2): small exhaustive spaces of Options objects; values and states are written and observed with
+# the printers of harness/c15.py and judged by its checker chk_ops over Model/Options.v (o_init, o_step, o_trace)
+# ---------------------------------------------------------------------------------------------------------------------
+def _space_opt(target: str) -> Dict[str, Any]:
+    from harness import c15
+    CH = ["K", "feature_chainer_parser_key"]
+
+    def opts(*pairs: Any) -> List[List[Any]]:
+        return [[k, v] for k, v in pairs if v != "absent"]
+    if target == "Features_merge_options":
+        parents = [{"g": opts(("a", a), ("b", b), (CH, ch)), "c": opts(("c", c)), "p": []}
+                   for a in ("absent", 1, 2) for b in ("absent", 1) for ch in ("absent", ["L", ["a"]], "a", 5, ["L", []])
+                   for c in ("absent", 1)]
+        children = [{"g": opts(("a", a), ("b", b), (CH, ch)), "c": opts(("c", c)), "p": p}
+                    for a in ("absent", 1, 2, True) for b in ("absent", 2) for ch in ("absent", ["L", ["a"]], ["L", ["b"]])
+                    for c, p in (("absent", []), (2, []), (2, ["c"]))]
+        cases = [{"init": pa, "ops": [{"op": "merge", "other": ch}]} for pa in parents for ch in children]
+    elif target == "Options_update_with_protected_keys":
+        selfs = [{"g": opts(("a", a), (CH, ch)), "c": opts(("c", c), ("b", b)), "p": []}
+                 for a in ("absent", 1) for ch in ("absent", ["L", ["a"]], ["S", ["a", "b"]], 5, "ab")
+                 for c in ("absent", 1) for b in ("absent", 7)]
+        others = [{"g": opts(("a", a), ("b", b), ("in_features", i)), "c": opts(("c", c), ("d", d)), "p": p}
+                  for a in ("absent", 2) for b in ("absent", 3) for i in ("absent", "x")
+                  for c, d, p in (("absent", "absent", []), (2, "absent", ["c"]), (1, 4, ["c", "d"]), (2, 4, ["d"]))]
+        prots = [None, [], ["a"], ["b", "c"]]
+        cases = [{"init": si, "ops": [{"op": "update", "other": o, "prot": pr}]} for si in selfs for o in others for pr in prots]
+    elif target in ("OptionsValidator_validate_no_group_context_conflicts", "OptionsValidator_validate_no_context_group_conflicts"):
+        from mloda.core.abstract_plugins.components.validators.options_validator import OptionsValidator
+        fn = target[len("OptionsValidator_"):]
+        pool = ["a", "b", 1, True]
+        sets = [[pool[j] for j in range(4) if m >> j & 1 and not (j == 3 and m >> 2 & 1)] for m in range(16)]
+
+        def real_conf(i: dict) -> Any:
+            try:
+                getattr(OptionsValidator, fn)({c15.to_py(k) for k in i["a"]}, {c15.to_py(k) for k in i["b"]})
+                return False
+            except ValueError:
+                return True
+        ty = "(list pykey * list pykey) * option bool"
+        return {"inputs": [{"a": a, "b": b} for a in sets for b in sets], "real": real_conf,
+                "term": lambda i, o: (f"(({cq_list(c15.key_term(c15.to_py(k)) for k in i['a'])}, "
+                                      f"{cq_list(c15.key_term(c15.to_py(k)) for k in i['b'])}), {_ob(o)})"),
+                "type": ty, "req": c15.REQ,
+                "defs": OB + f"Definition chk (c : {ty}) := ob (snd c) (existsb (fun k => kmem k (snd (fst c))) (fst (fst c)))."}
+    elif target in ("Options_add", "Options_add_to_group", "OptionsValidator_validate_can_add_to_group", "Options_add_to_context",
+                    "OptionsValidator_validate_can_add_to_context", "Options_set"):
+        op = {"Options_add": "add", "Options_add_to_context": "add_context", "OptionsValidator_validate_can_add_to_context": "add_context",
+              "Options_set": "set"}.get(target, "add_group")
+        inits = [{"g": opts(("a", a), ("b", b)), "c": opts(("c", c)), "p": []}
+                 for a in ("absent", 1, 2, ["L", [1]]) for b in ("absent", True) for c in ("absent", 1)]
+        cases = [{"init": i, "ops": [{"op": op, "k": k, "v": v}]} for i in inits for k in ("a", "b", "c", 1)
+                 for v in (1, 2, True, ["L", [1]], None)]
+    elif target in ("Options_get", "Options_items"):
+        inits = [{"g": opts(("a", a), (1, b)), "c": opts(("c", c), (True, d) if b == "absent" else ("x", "absent")), "p": []}
+                 for a in ("absent", 1, None) for b in ("absent", 2) for c in ("absent", 3) for d in ("absent", 4)]
+        keys = ["a", "c", 1, True, "zz", None]
+        if target == "Options_get":
+            ty = "(ini_t * pykey) * option pyval"
+            return {"inputs": [{"init": i, "key": k} for i in inits for k in keys],
+                    "real": lambda i: c15.val_term(c15.build_options(i["init"]).get(c15.to_py(i["key"]))),
+                    "term": lambda i, o: (f"(({c15.init_term(i['init'])}, {c15.key_term(c15.to_py(i['key']))}), "
+                                          + ("None" if o.startswith("exc:") else f"Some {o}") + ")"),
+                    "type": ty, "req": c15.REQ,
+                    "defs": c15.EXTRA_OPS + f"Definition chk (c : {ty}) := match snd c with Some v => "
+                            "val_same (o_get (snd (fst c)) (mk_other (fst (fst c)))) v | None => false end."}
+        ty = "ini_t * option (list (pykey * pyval))"
+        return {"inputs": [{"init": i} for i in inits],
+                "real": lambda i: c15.pairs_term(c15.build_options(i["init"]).items()),
+                "term": lambda i, o: f"({c15.init_term(i['init'])}, " + ("None" if o.startswith("exc:") else f"Some {o}") + ")",
+                "type": ty, "req": c15.REQ,
+                "defs": c15.EXTRA_OPS + f"Definition chk (c : {ty}) := match snd c with Some l => "
+                        "dict_same (o_items (mk_other (fst c))) l | None => false end."}
+    else:
+        raise KeyError(target)
+    if target in ("OptionsValidator_validate_can_add_to_group", "OptionsValidator_validate_can_add_to_context"):
+        from mloda.core.abstract_plugins.components.validators.options_validator import OptionsValidator
+        vfn = getattr(OptionsValidator, target[len("OptionsValidator_"):])
+        mfn = "o_add_group" if target.endswith("group") else "o_add_context"
+
+        def real_val(i: dict) -> Any:
+            o = c15.build_options(i["init"])
+            try:
+                vfn(c15.to_py(i["ops"][0]["k"]), c15.to_py(i["ops"][0]["v"]), o.group, o.context)
+                return 0
+            except Exception as ex:  # noqa: BLE001
+                return c15.err_code(ex)
+        ty = "(ini_t * pykey * pyval) * option (option oerr)"
+        return {"inputs": cases, "real": real_val,
+                "term": lambda i, o: (f"(({c15.init_term(i['init'])}, {c15.key_term(c15.to_py(i['ops'][0]['k']))}, "
+                                      f"{c15.val_term(c15.to_py(i['ops'][0]['v']))}), {c15.err_term(o if isinstance(o, int) else 3)})"),
+                "type": ty, "req": c15.REQ,
+                "defs": c15.EXTRA_OPS + f"Definition chk (c : {ty}) := match c with ((i, k, v), o) => "
+                        f"err_same (snd ({mfn} k v (mk_other i))) o end."}
+
+    def real_seq(i: dict) -> Any:
+        obs = c15.run_sequence(i)
+        return {"init_err": obs["init_err"], "errs": obs["errs"], "steps": obs["steps"]}
+    return {"inputs": cases, "real": real_seq,
+            "term": lambda i, o: c15.seq_term(i, o) if isinstance(o, dict) else c15.seq_term(i, {"init_err": 3, "steps": []}),
+            "type": "case_t", "req": c15.REQ, "defs": c15.EXTRA_OPS + "Definition chk := chk_ops."}
+
+
+# ---------------------------------------------------------------------------------------------------------------------
+# the planner targets (round 2): small exhaustive spaces of collections / queues / trekker tables; uuid k <-> UUID(int=k+1)
+# ---------------------------------------------------------------------------------------------------------------------
+_CFW: List[type] = []
+
+
+def _cfws() -> List[type]:
+    if not _CFW:
+        _CFW.extend(type(f"SrcTieCfw{i}", (), {}) for i in range(4))
+    return _CFW
+
+
+def _uu(k: int) -> Any:
+    from uuid import UUID
+    return UUID(int=k + 1)
+
+
+def _real_plink(uid: int) -> Any:
+    """a real Link whose uuid is uid (Links of different uid are different under Link.__eq__ as well)"""
+    from harness import c18
+    classes = c18.make_classes([None] * 6, "stp")
+    a, b = divmod(uid // 4, 5)
+    l = c18.real_link(classes, {"jt": "INNER", "l": a % 6, "r": (a + 1 + b) % 6, "li": ["k"], "ri": ["k"]})
+    l.uuid = _uu(uid)
+    return l
+
+
+def _real_joinstep(js: List[int]) -> Any:
+    from mloda.core.core.step.join_step import JoinStep
+    uid, lf, rf = js
+    o = JoinStep(_real_plink(uid), _cfws()[lf], _cfws()[rf], set(), set(), set())
+    o.uuid = _uu(uid + 1)           # the numbering convention of Model/PlannerL.v: js_uid u = u + 1
+    return o
+
+
+def _nl(l: Any) -> str:
+    return cq_list(cq_nat(x) for x in l)
+
+
+def _cq_js(js: List[int]) -> str:
+    return f"({cq_nat(js[0])}, ({cq_nat(js[1])}, {cq_nat(js[2])}))"
+
+
+def _collections() -> List[List[List[int]]]:
+    pairs = [(a, b) for a in range(3) for b in range(3)]
+    one = [[[0, a, b]] for a, b in pairs]
+    two = [[[0, a, b], [4, c, d]] for a, b in pairs for c, d in pairs]
+    ring = [(0, 1), (1, 2), (2, 0)]
+    three = [[[0, a, b], [4, c, d], [8, e, f]] for a, b in ring for c, d in ring for e, f in ring]
+    return [[]] + one + two + three
+
+
+def _ints(us: Any) -> Any:
+    return sorted(u.int - 1 for u in us) if isinstance(us, (set, frozenset)) else None
+
+
+def _space_plan(target: str) -> Dict[str, Any]:
+    SOME = "Definition osome (a : option (list nat)) (b : list nat) := match a with Some x => PlannerL.sets_eqb x b | None => false end.\n"
+    if target == "JoinStep_get_uuids":
+        return {"inputs": [{"join_step": [u, a, b]} for u in (0, 4, 8) for a in range(2) for b in range(2)],
+                "real": lambda i: _ints(_real_joinstep(i["join_step"]).get_uuids()),
+                "term": lambda i, o: f"({_cq_js(i['join_step'])}, {'Some ' + _nl(o) if isinstance(o, list) else 'None'})",
+                "type": "(nat * (nat * nat)) * option (list nat)", "req": ["MV.Model.PlannerL"],
+                "defs": SOME + "Definition chk (c : (nat * (nat * nat)) * option (list nat)) := "
+                               "osome (snd c) [PlannerL.js_uid (fst (fst c)); fst (fst c)]."}
+    if target in ("JoinStepCollection_similar_dependent_joins_uuids", "JoinStepCollection_add"):
+        from mloda.core.prepare.joinstep_collection import JoinStepCollection
+
+        def coll(steps: List[List[int]]) -> Any:
+            c = JoinStepCollection()
+            for k, js in enumerate(steps):
+                c.collection[_real_joinstep(js)] = {_uu(100 + k)}
+            return c
+        if target.endswith("_uuids"):
+            return {"inputs": [{"collection": c, "left_framework": a, "right_framework": b}
+                               for c in _collections() for a in range(3) for b in range(3)],
+                    "real": lambda i: _ints(coll(i["collection"]).similar_dependent_joins_uuids(
+                        _cfws()[i["left_framework"]], _cfws()[i["right_framework"]])),
+                    "term": lambda i, o: (f"(({cq_list(_cq_js(j) for j in i['collection'])}, {cq_nat(i['left_framework'])}, "
+                                          f"{cq_nat(i['right_framework'])}), {'Some ' + _nl(o) if isinstance(o, list) else 'None'})"),
+                    "type": "(list (nat * (nat * nat)) * nat * nat) * option (list nat)", "req": ["MV.Model.PlannerL"],
+                    "defs": SOME + "Definition chk (c : (list (nat * (nat * nat)) * nat * nat) * option (list nat)) := "
+                                   "match c with ((jc, lf, rf), o) => osome o (PlannerL.jc_required jc lf rf) end."}
+
+        def real_add(i: dict) -> Any:
+            c = coll(i["collection"])
+            c.add(_real_joinstep(i["join_step"]))
+            return [[k.link.uuid.int - 1, k.left_framework.__name__[-1], k.right_framework.__name__[-1], _ints(v)]
+                    for k, v in c.collection.items()]
+        cols = [c for c in _collections() if len(c) <= 2]
+        return {"inputs": [{"collection": c, "join_step": [12, a, b]} for c in cols for a in range(3) for b in range(3)],
+                "real": real_add,
+                "term": lambda i, o: (f"(({cq_list(_cq_js(j) for j in i['collection'])}, {_cq_js(i['join_step'])}), "
+                                      + (cq_list(f"(({cq_nat(e[0])}, ({e[1]}, {e[2]})), {_nl(e[3])})" for e in o)
+                                         if isinstance(o, list) else "[]") + ")"),
+                "type": "(list (nat * (nat * nat)) * (nat * (nat * nat))) * list ((nat * (nat * nat)) * list nat)",
+                "req": ["MV.Model.PlannerL"],
+                # the values of the entries that were there are the markers 100 + position; the new entry is jc_required of the keys
+                "defs": "Definition chk (c : (list (nat * (nat * nat)) * (nat * (nat * nat))) * list ((nat * (nat * nat)) * list nat)) := "
+                        "match c with ((jc, js), o) => "
+                        "PlannerL.list_eqb_by (fun a b => Nat.eqb (fst a) (fst b) && Nat.eqb (fst (snd a)) (fst (snd b)) "
+                        "&& Nat.eqb (snd (snd a)) (snd (snd b))) (map fst o) (jc ++ [js]) "
+                        "&& PlannerL.list_eqb_by PlannerL.sets_eqb (map snd o) "
+                        "(map (fun k => [100 + k]) (seq 0 (List.length jc)) ++ [PlannerL.jc_required jc (fst (snd js)) (snd (snd js))]) end."}
+    if target == "ResolveComputeFrameworks_order_queue_by_trekker_order":
+        import types
+        from collections import OrderedDict
+        from mloda.core.prepare.resolve_compute_frameworks import ResolveComputeFrameworks as RCF
+        uids = (0, 4, 8)
+        links = {u: _real_plink(u) for u in uids}
+        fw = {0: (0, 1), 4: (1, 2), 8: (2, 0)}
+        groups = _cfws()        # any class that is not a Link stands for a feature group class
+
+        def item(x: List[Any]) -> Any:
+            if x[0] == "L":
+                return (links[x[1]], _cfws()[x[2]], _cfws()[x[3]])
+            return (groups[x[1]], frozenset())
+
+        def back(p: Any) -> Any:
+            if isinstance(p, tuple) and len(p) == 3 and getattr(p[0], "uuid", None) is not None:
+                return ["L", p[0].uuid.int - 1, _cfws().index(p[1]), _cfws().index(p[2])]
+            if isinstance(p, tuple) and len(p) == 2 and p[0] in groups:
+                return ["G", groups.index(p[0])]
+            raise ValueError("not a queue item")
+
+        def real_oq(i: dict) -> Any:
+            lt = types.SimpleNamespace(order=OrderedDict((_uu(k), {_uu(x) for x in v}) for k, v in i["orders"]))
+            me = RCF.__new__(RCF)
+            return [back(p) for p in me.order_queue_by_trekker_order([item(x) for x in i["queue"]], lt)]
+        L = lambda u: ["L", u, fw[u][0], fw[u][1]]  # noqa: E731
+        queues = []
+        for n in (1, 2, 3):
+            for perm in itertools.permutations(uids, n):
+                queues.append([L(u) for u in perm])
+                if n == 3:
+                    queues.append([L(perm[0]), ["G", 0], L(perm[1]), L(perm[2])])
+        orders: List[List[Any]] = [[]]
+        for n in (1, 2, 3):
+            for ks in itertools.permutations(uids, n):
+                choices = []
+                for k in ks:
+                    others = [u for u in uids if u != k]
+                    choices.append([[others[0]], [others[1]], others] if n < 3 else [[others[0]], [others[1]], others])
+                for vs in itertools.product(*choices):
+                    orders.append([[k, list(v)] for k, v in zip(ks, vs)])
+
+        def cq_item(x: List[Any]) -> str:
+            return f"PlannerL.PL ({cq_nat(x[1])}, ({cq_nat(x[2])}, {cq_nat(x[3])}))" if x[0] == "L" else f"PlannerL.PG {cq_nat(x[1])} []"
+        ty = "(list PlannerL.pitem * PlannerA.amap) * option (list PlannerL.pitem)"
+        return {"inputs": [{"queue": q, "orders": o} for q in queues for o in orders],
+                "real": real_oq,
+                "term": lambda i, o: (f"(({cq_list(cq_item(x) for x in i['queue'])}, "
+                                      f"{cq_list(f'({cq_nat(k)}, {_nl(v)})' for k, v in i['orders'])}), "
+                                      + (f"Some {cq_list(cq_item(x) for x in o)}" if isinstance(o, list) else "None") + ")"),
+                "type": ty, "req": ["MV.Model.PlannerL"],
+                # the postponed links of one key are iterated in hash order: the model has to agree under SOME oracle (two
+                # links at most wait under one key here: the identity and the reversal are all the orders there are)
+                "defs": f"Definition chk (c : {ty}) := match c with ((pq, orders), Some o) => "
+                        "existsb (fun od => PlannerL.list_eqb_by PlannerL.pitem_eqb (PlannerL.order_queue od orders pq) o) "
+                        "[PlannerA.ord_id; (fun _ l => rev l)] | _ => false end."}
+    if target == "ExecutionPlan_validate_required_uuids_are_produced":
+        import types
+        from mloda.core.prepare.execution_plan import ExecutionPlan
+        subs = _subsets(3)
+
+        def real_val(i: dict) -> Any:
+            ep = ExecutionPlan.__new__(ExecutionPlan)
+            ep.execution_plan = [types.SimpleNamespace(get_uuids=(lambda u=u: {_uu(x) for x in u}), required_uuids={_uu(x) for x in r})
+                                 for u, r in i["plan"]]
+            ep._validate_steps_do_not_wait_in_a_cycle = lambda: None        # the callee is a parameter of the tie
+            try:
+                ep._validate_required_uuids_are_produced()
+                return True
+            except ValueError:
+                return False
+        one = [[[u], r] for u in range(3) for r in subs]
+        few = [[[u], r] for u in range(3) for r in ([], [0], [1, 2], [2])]
+        plans = [[]] + [[a] for a in one] + [[a, b] for a in one for b in one] + [[a, b, c] for a in few for b in few for c in few]
+        step = lambda k, s: (f"{{| Orch.sid := {cq_nat(k)}; Orch.skind := Orch.KFG; Orch.uuids := {_nl(s[0])}; "  # noqa: E731
+                             f"Orch.req := {_nl(s[1])}; Orch.requested := false |}}")
+        return {"inputs": [{"plan": p} for p in plans], "real": real_val,
+                "term": lambda i, o: f"({cq_list(step(k, s) for k, s in enumerate(i['plan']))}, {_ob(o)})",
+                "type": "list Orch.step * option bool", "req": ["MV.Model.PlannerA"],
+                "defs": OB + "Definition chk (c : list Orch.step * option bool) := ob (snd c) (PlannerA.validate_A (fst c))."}
+    if target.startswith("LinkTrekker_"):
+        from collections import OrderedDict
+        from mloda.core.prepare.resolve_links import LinkTrekker
+        uids = (0, 4, 8)
+        links = {u: _real_plink(u) for u in (0, 4, 8, 12)}
+
+        def trekker(data: List[Any], order: List[Any]) -> Any:
+            lt = LinkTrekker()
+            for (u, l, r), kids in data:
+                lt.data[(links[u], _cfws()[l], _cfws()[r])] = {_uu(x) for x in kids}
+            lt.order = OrderedDict((_uu(k), {_uu(x) for x in v}) for k, v in order)
+            return lt
+
+        def obs_order(lt: Any) -> Any:
+            return [[k.int - 1, _ints(v)] for k, v in lt.order.items()]
+
+        def obs_table(d: Any) -> Any:
+            return [[[k[0].uuid.int - 1, _cfws().index(k[1]), _cfws().index(k[2])], _ints(v)] for k, v in d.items()]
+        cq_key = lambda k: f"({cq_nat(k[0])}, ({cq_nat(k[1])}, {cq_nat(k[2])}))"  # noqa: E731
+        cq_amap = lambda m: cq_list(f"({cq_nat(k)}, {_nl(v)})" for k, v in m)  # noqa: E731
+        cq_tdata = lambda d: cq_list(f"({cq_key(k)}, {_nl(v)})" for k, v in d)  # noqa: E731
+        if target == "LinkTrekker_order_ordered_ids_by_relation":
+            subsets = [[u for j, u in enumerate(uids) if msk >> j & 1] for msk in range(1, 8)]
+            orders: List[List[Any]] = []
+            for n in (1, 2, 3):
+                for ks in itertools.permutations(uids, n):
+                    for vs in itertools.product(subsets, repeat=n):
+                        orders.append([[k, v] for k, v in zip(ks, vs)])
+            four = (0, 4, 8, 12)
+            for ks in itertools.permutations(four):
+                for vs in itertools.product(*[[[x] for x in four if x != k] for k in ks]):
+                    orders.append([[k, v] for k, v in zip(ks, vs)])
+
+            def real_reorder(i: dict) -> Any:
+                lt = trekker([], i["order"])
+                lt.order_ordered_ids_by_relation()
+                return obs_order(lt)
+            ty = "PlannerA.amap * option PlannerA.amap"
+            return {"inputs": [{"order": o} for o in orders], "real": real_reorder,
+                    "term": lambda i, o: f"({cq_amap(i['order'])}, {'Some ' + cq_amap(o) if isinstance(o, list) else 'None'})",
+                    "type": ty, "req": ["MV.Model.PlannerL"],
+                    "defs": f"Definition chk (c : {ty}) := match snd c with Some o => "
+                            "PlannerL.amap_exact_eqb (PlannerL.reorder_rel (fst c)) o | None => false end."}
+        pairs = [(0, 1), (1, 2), (2, 3), (1, 0), (2, 1)]
+        keys = [[u, l, r] for u in uids for l, r in pairs]
+        datas = [list(x) for x in itertools.permutations(keys, 2)] + \
+                [[[a, *p], [b, *q], [c, *w]] for a, b, c in itertools.permutations(uids) for p in pairs for q in pairs for w in pairs]
+        if target == "LinkTrekker_order_links_by_frameworks":
+            def real_olbf(i: dict) -> Any:
+                lt = trekker([[k, [20]] for k in i["data"]], i["order"])
+                lt.drop_dependency_in_case_of_circular_dependencies = lambda: None     # the callee is a parameter of the tie
+                lt.order_links_by_frameworks()
+                return obs_order(lt)
+            ty = "(list PlannerL.lkey * PlannerA.amap) * option PlannerA.amap"
+            return {"inputs": [{"data": d, "order": o} for d in datas for o in ([], [[8, [0]]])], "real": real_olbf,
+                    "term": lambda i, o: (f"(({cq_list(cq_key(k) for k in i['data'])}, {cq_amap(i['order'])}), "
+                                          f"{'Some ' + cq_amap(o) if isinstance(o, list) else 'None'})"),
+                    "type": ty, "req": ["MV.Model.PlannerL"],
+                    "defs": f"Definition chk (c : {ty}) := match c with ((ks, o0), Some o) => PlannerL.amap_exact_eqb "
+                            "(PlannerL.olbf (map (fun k => (k, [20])) ks) o0) o | _ => false end."}
+        if target == "LinkTrekker_get_ordered_data":
+            def real_god(i: dict) -> Any:
+                lt = trekker(i["data"], [])
+                r = lt.get_ordered_data()
+                return [obs_table(r), obs_order(lt)]
+            kids = [[[10], [10, 11], [12]], [[10, 11], [10], [12, 13]]]
+            ty = "PlannerL.tdata * option (PlannerL.tdata * PlannerA.amap)"
+            return {"inputs": [{"data": [[k, kd[j]] for j, k in enumerate(d)]} for d in datas for kd in kids], "real": real_god,
+                    "term": lambda i, o: (f"({cq_tdata(i['data'])}, "
+                                          + (f"Some ({cq_tdata(o[0])}, {cq_amap(o[1])})" if isinstance(o, list) else "None") + ")"),
+                    "type": ty, "req": ["MV.Model.PlannerL"],
+                    "defs": f"Definition chk (c : {ty}) := "
+                            "match PlannerL.get_ordered_data {| PlannerL.t_data := fst c; PlannerL.t_dor := []; PlannerL.t_order := [] |}, snd c with "
+                            "| PlannerL.Ok t, Some (dor, o) => PlannerL.tdata_eqb (PlannerL.t_dor t) dor && PlannerL.amap_exact_eqb (PlannerL.t_order t) o "
+                            "| PlannerL.Err _, None => true | _, _ => false end."}
     raise KeyError(target)
 
 
